@@ -25,7 +25,7 @@ index structure, `cr.c:dft_stage_init` arithmetic; `Cr/Model.lean` — the count
   rate is exactly `L` iff it holds.
 
 What Lean does not carry: that the cepstral transform leaves `|H|` unchanged (floating point; measured by the falsifier),
-and the end-to-end mirror / symmetry of the multi-stage response (measured).  Stated as `Goal_…`, not claimed.
+and the end-to-end mirror / symmetry of the multi-stage response (measured).  `Goal_magnitude_preserved` is stated, not claimed.
 -/
 namespace Soxr.Properties.C14
 open Soxr Soxr.Cr Soxr.Phase
@@ -107,6 +107,17 @@ example : (firToPhaseAt exCep 1 25).taps = [28, 29, 30, 31, 32, 33, 34, 35, 36, 
     ∧ (firToPhaseAt exCep 1 25).postLen = 20 ∧ (firToPhaseAt exCep 1 75).postLen = 12
     ∧ (firToPhaseAt exCep 1 75).taps.head? = some 60 := by decide
 example : (25 : Nat) ≤ 100 * 1 ∧ (25 : Nat) ≠ 50 * 1 := by decide
+
+/-- **Mirror settings have the same magnitude response** — for any functional `mag` of the tap list that does not see
+    time reversal (as `|DFT|` of a real sequence does not; that fact about `mag` is the hypothesis `hrev`). -/
+theorem mirror_same_magnitude {α ρ : Type} (mag : List α → ρ) (hrev : ∀ l, mag l.reverse = mag l)
+    (cep : Cep α) (d n : Nat) (h : n ≤ 100 * d) (hne : n ≠ 50 * d) :
+    mag (firToPhaseAt cep d (100 * d - n)).taps = mag (firToPhaseAt cep d n).taps := by
+  rw [(mirror cep d n h hne).1, hrev]
+
+/-- e.g. the sum of squares -/
+example : (fun l : List Nat => (l.map (fun x => x * x)).sum) (firToPhaseAt exCep 1 75).taps =
+    (fun l : List Nat => (l.map (fun x => x * x)).sum) (firToPhaseAt exCep 1 25).taps := by decide
 
 /-- mirror pairs have the same length -/
 theorem mirror_length {α : Type} (cep : Cep α) (d n : Nat) (h : n ≤ 100 * d) :
@@ -311,9 +322,10 @@ theorem isPow2L_matches_macro : (List.range 131).map isPow2L = Generated.pow2Tab
 
 /-! ## not carried by Lean (measured by the falsifier of `checks/c14.py`) -/
 
-/-- the cepstral transform changes the phase only: `|H_p(ω)| = |H_50(ω)|` (floating point: FFT, `atan2`, `log`, `exp`, and
-    a truncation to `len` taps that costs up to ≈ 3·10⁻⁴ relative at minimum phase) — **not proved**; measured. -/
-def Goal_magnitude_preserved : Prop :=
-  ∀ (H : Nat → Nat → Int), ∀ p w, H p w = H 50 w
+/-- the cepstral transform changes the phase only: with `mag l ω` the magnitude response of the tap list `l` and `h` the
+    designed (linear-phase) filter, `|H_p(ω)| = |H(ω)|` for every phase setting.  Floating point (FFT, `atan2`, `log`, `exp`)
+    plus a truncation to `len` taps that costs up to ≈ 3·10⁻⁴ relative at minimum phase — **not proved**; measured. -/
+def Goal_magnitude_preserved {α ρ : Type} (mag : List α → Nat → ρ) (cep : Cep α) (h : List α) (d : Nat) : Prop :=
+  ∀ n, n ≤ 100 * d → ∀ ω, mag (firToPhaseAt cep d n).taps ω = mag h ω
 
 end Soxr.Properties.C14
